@@ -70,4 +70,20 @@ theorem C16_view_consistent (d : Xml) (v : RoView) (h : roView d = .ok v) :
         storyEnd ((rc.findall "story")[k]) v.start (v.stories[k]).offset = .ok (v.stories[k]).stop) :=
   view_consistent d v h
 
+/-- non-vacuity, with a REPEATED story ID: stories A (10 s), B (5 s), A (7 s) — the accessors return
+    and each story gets the sum of the durations before it (in eighths of a second), the second "A"
+    included (an ID-keyed table would have given both "A" stories the same offset) -/
+example :
+    let dur (t : String) : Xml := .node "mosExternalMetadata" [] none none
+      [.node "mosPayload" [] none none [.node "StoryDuration" [] (some t) none []]]
+    let story (id t : String) : Xml := .node "story" [] none none
+      [.node "storyID" [] (some id) none [], dur t]
+    let d : Xml := .node "mos" [] none none [.node "roCreate" [] none none
+      [.node "roSlug" [] (some "show") none [], story "A" "10", story "B" "5", story "A" "7"]]
+    (match roView d with
+     | .ok v => v.stories.map (fun s => (s.id, s.offset))
+     | .error _ => []) =
+      [(some "A", some 0), (some "B", some 80), (some "A", some 120)] := by
+  decide
+
 end Mrm
